@@ -1370,6 +1370,15 @@ def assemble_twin(unit):
                 i += 1
             ex = extract_file(file)
             cands = ex["by_path"].get(ipath, [])
+            if cands and cands[0]["kind"] in ("struct", "enum"):
+                x = cands[0]
+                text = ex["src"][x["kw_start"]:x["end"]].decode()
+                text = re.sub(r"\bpub(\([a-z]+\))?\s+", "", text)
+                text = re.sub(r"(?m)^\s*#\[[^\]]*\]\s*$", "", text)
+                text = re.sub(r"(?m)^\s*///.*$", "", text)
+                out.append("pub " + re.sub(r"(?m)^(\s+)([a-z_][A-Za-z0-9_]*\s*:)", r"\1pub \2", text))
+                i += 1
+                continue
             if not cands or cands[0]["kind"] != "fn" or cands[0]["body"] is None:
                 raise Undecided(f"lost-anchor: twin {unit}: item `{ipath}` not found in {file}")
             x = cands[0]
